@@ -27,7 +27,7 @@ def sh(cmd, **kw):
 
 
 def suite_green(wt):
-    p = sh("make -C %s clean check 2>&1 | grep -E 'Tests|error' | head -5" % wt)
+    p = sh("make -C %s clean check 2>&1 | grep -E '\\| Tests|error:' | head -5" % wt)
     ok = "Failed    0" in p.stdout and "133" in p.stdout
     return ok, p.stdout.strip()[-300:]
 
@@ -64,11 +64,17 @@ def evaluate(wt, ids, tier="quick", seed=1):
     print("suite with change: %s  (%s)" % ("green" if ok else "RED", txt.replace("\n", " ")[-120:]))
     rc1, out1 = demo(wt)
     print("demo with change: exit %s" % rc1)
-    sh("git -C %s stash -q" % wt)
+    # NOT git stash: the stash is shared by all worktrees of a repository
+    pf = os.path.join(wt, ".mutant-eval.patch")
+    open(pf, "w").write(diff)
+    sh("git -C %s checkout -- src include" % wt)
     try:
         rc0, out0 = demo(wt)
     finally:
-        sh("git -C %s stash pop -q" % wt)
+        r = sh("git -C %s apply %s" % (wt, pf))
+        if r.returncode != 0:
+            print("WARNING: could not re-apply the change: %s" % r.stdout)
+        os.remove(pf)
     print("demo without change: exit %s" % rc0)
     info["demo_exit_with_change"] = rc1
     info["demo_exit_without_change"] = rc0
